@@ -450,6 +450,28 @@ func genC04(tier string, rng *Rng) {
 	}
 	one := func(kind, l string) { emitC04(kind, []string{l}) }
 
+	// (0) list-valued lines: EVERY sequence of up to four items over {empty, blank, plain, padded, tab-padded}
+	// (an empty item followed by an empty or padded one, doubled and trailing separators, ...)
+	{
+		items := []string{"", " ", "192.168.10.4", " 10.0.0.7 ", "h\t", "\u00a0x"}
+		var rec func(prefix []string, depth int)
+		rec = func(prefix []string, depth int) {
+			if len(prefix) > 0 {
+				v := strings.Join(prefix, ";")
+				one("list-items-exhaustive", "_connections="+v)
+				if len(prefix) < 4 || thorough {
+					one("list-items-exhaustive", "_serverModeLockToIP="+v)
+				}
+			}
+			if depth == 0 {
+				return
+			}
+			for _, it := range items {
+				rec(append(append([]string{}, prefix...), it), depth-1)
+			}
+		}
+		rec(nil, 4)
+	}
 	// (1) events: every kind x id x (no edge | edge) x value grids, well-formed and not
 	ids := []string{"0", "1", "5", "007", "255", "4294967295", "4294967296", "99999999999999999999"}
 	edges := []string{"", ".0", ".1", ".2", ".4", ".8", ".16", ".3", ".2147483647", ".2147483648", ".4294967295", ".4294967296", "x1", ".", ".x"}
